@@ -77,13 +77,13 @@ PROPS = {
         'monitors': ['solv.market', 'solv.order', 'cons.', 'frame.supply'], 'families': ['sao', 'block', 'node'],
     },
     'C05': {
-        'theorems': 'Properties/C05', 'obligation_files': [],
+        'theorems': 'Properties/C05', 'obligation_files': ['Proofs/Refinement'],
         'profiles': [SAO, SAOLONG],
         'projection': ['bank.Balance', 'order.Order+keys', 'order.Shard+keys', 'model.Metadata', 'model.Model', 'model.ExpiredData'],
         'monitors': ['sched.expdata_live', 'sched.meta_scheduled', 'sched.meta_expiry_is_shard_end', 'ref.model_alias', 'rollback.'], 'families': ['sao', 'block'],
     },
     'C06': {
-        'theorems': 'Properties/C06', 'scenarios': ['flow-debt-claim'], 'obligation_files': ['Obligations/ObShape'],
+        'theorems': 'Properties/C06', 'scenarios': ['flow-debt-claim'], 'obligation_files': ['Obligations/ObShape', 'Proofs/Refinement'],
         'profiles': [SAO, SAOLONG, NODE],
         'projection': ['bank.Balance', 'bank.Supply', 'node.PledgeDebt', 'did.DidBalances'],
         'monitors': ['solv.'], 'families': ['sao', 'block', 'node', 'bank'],
@@ -95,7 +95,7 @@ PROPS = {
         'monitors': ['agg.used_bounds', 'agg.shpledged_is_sum', 'agg.used_is_sum', 'frame.node_msgs', 'solv.node', 'coll.release_exact'], 'families': ['sao', 'block', 'node'],
     },
     'C08': {
-        'theorems': 'Properties/C08', 'scenarios': ['flow-debt-claim'], 'obligation_files': ['Obligations/ObShape'],
+        'theorems': 'Properties/C08', 'scenarios': ['flow-debt-claim'], 'obligation_files': ['Obligations/ObShape', 'Proofs/Refinement'],
         'profiles': [NODE, SAO, SAOLONG],
         'projection': ['bank.Supply', 'node.Pool', 'node.Pledge#2', 'node.Pledge#3', 'node.Pledge#4'],
         'monitors': ['agg.pool_is_sum', 'frame.supply', 'solv.node', 'mint.'], 'families': ['block', 'node', 'sao'],
@@ -113,7 +113,7 @@ PROPS = {
         'monitors': ['authz.complete', 'authz.cancel', 'authz.payer', 'frame.node_msgs'], 'families': ['sao', 'node'],
     },
     'C11': {
-        'theorems': 'Properties/C11', 'scenarios': ['flow-renew2-migrate'], 'obligation_files': ['Obligations/ObShape'],
+        'theorems': 'Properties/C11', 'scenarios': ['flow-renew2-migrate'], 'obligation_files': ['Obligations/ObShape', 'Proofs/Refinement'],
         'profiles': [SAOLONG, SAO],
         'projection': ['order.Shard+keys', 'order.Shard#7', 'order.Shard#8', 'order.Shard#9', 'order.Order+keys', 'model.Metadata+keys', 'model.Metadata#11',
                        'sao.ExpiredShard', 'model.ExpiredData', 'node.Pledge#5', 'node.Pledge#1', 'market.Worker'],
@@ -126,14 +126,14 @@ PROPS = {
         'monitors': ['sched.timeout_scheduled', 'sched.long_timeout_scheduled', 'sched.timeouts_future', 'sel.order_sps_distinct'], 'families': ['block', 'sao'],
     },
     'C13': {
-        'theorems': 'Properties/C13', 'scenarios': ['flow-renew2-migrate'], 'obligation_files': [],
+        'theorems': 'Properties/C13', 'scenarios': ['flow-renew2-migrate'], 'obligation_files': ['Proofs/Refinement'],
         'profiles': [SAO, SAOLONG],
         'projection': ['order.Order#7', 'order.Order+keys', 'order.Shard#0', 'order.Shard+keys', 'model.Metadata+keys', 'model.Metadata#1', 'model.Metadata#2',
                        'model.Model', 'sao.ExpiredShard'],
         'monitors': ['ref.'], 'families': ['sao', 'block'],
     },
     'C14': {
-        'theorems': 'Properties/C14', 'scenarios': ['flow-debt-claim', 'flow-renew2-migrate'], 'obligation_files': [],
+        'theorems': 'Properties/C14', 'scenarios': ['flow-debt-claim', 'flow-renew2-migrate'], 'obligation_files': ['Proofs/Refinement'],
         'profiles': [SAO, SAOLONG, NODE],
         'projection': ['node.Pledge#0', 'node.Pledge#1', 'node.Pledge#4', 'node.Pledge#5', 'market.Worker#0', 'market.Worker#2', 'node.Pool#0', 'node.Pool#6',
                        'order.Shard#2', 'order.Shard#4'],
@@ -146,14 +146,14 @@ PROPS = {
         'monitors': ['sel.'], 'families': ['select', 'sao', 'block'], 'crash_is_witness': True,
     },
     'C16': {
-        'theorems': 'Properties/C16', 'obligation_files': [],
+        'theorems': 'Properties/C16', 'obligation_files': ['Proofs/Refinement'],
         'profiles': [SAO, SAOLONG],
         'projection': ['order.OrderCount', 'order.ShardCount', 'order.Order+keys', 'order.Shard+keys', 'model.Metadata#3', 'model.Metadata#6',
                        'model.Metadata#9', 'model.Metadata#15', 'model.Metadata#16'],
         'monitors': ['ids.', 'ver.'], 'families': ['sao', 'block'],
     },
     'C17': {
-        'theorems': 'Properties/C17', 'obligation_files': [],
+        'theorems': 'Properties/C17', 'obligation_files': ['Proofs/Refinement'],
         'profiles': [DID],
         'projection': ['did.'], 'monitors': ['did.'], 'families': ['did'],
     },
@@ -163,10 +163,10 @@ PROPS = {
         'projection': ['*'], 'monitors': ['genesis.'], 'families': ['genesis'],
     },
     'C19': {
-        'theorems': 'Properties/C19', 'scenarios': ['flow-fault-not-held'], 'obligation_files': [],
+        'theorems': 'Properties/C19', 'scenarios': ['flow-fault-not-held'], 'obligation_files': ['Proofs/Refinement'],
         'profiles': [SAO],
         'projection': ['node.FaultById', 'node.FaultIndex', 'node.FishingReward', 'bank.Balance', 'node.Pledge', 'order.', 'model.Metadata'],
-        'monitors': ['frame.faults', 'authz.faults', 'authz.recover_own'], 'families': ['fault'],
+        'monitors': ['frame.faults', 'authz.faults', 'authz.recover_own', 'authz.report_valid'], 'families': ['fault'],
     },
     'C20': {
         'theorems': 'Properties/C20', 'obligation_files': ['Obligations/ObShape'],
